@@ -69,6 +69,8 @@ def pair_conds(layout, ref, mach, nlen_is):
         at_end = True
     else:
         at_end = False
+    if at_end and mcode == 'OK':
+        return []      # a yield returned from end(): the protocol does not define what follows; outside the claim
     if mcode in ('UNWIND', 'TERM', 'STUCK'):
         return [(f'machine outcome {mcode}', z3.BoolVal(False))]
     if ref.code == 'INCOMPLETE':
@@ -181,7 +183,9 @@ def work(job):
             return out
         eof = comp.cfg['EOF_SUPPORT']
         wit = []
-        for with_end in ([False, True] if eof else [False]):
+        for with_end in job.get('ends', [False]):
+            if with_end and not eof:
+                continue
             key = job['label']
             try:
                 w = compare(prog, comp, layout, job['K'], with_end, st, key, job['max_paths'])
@@ -204,7 +208,7 @@ def work(job):
             machine = absm.Machine(comp.post, layout)
             ta = concrete_ref(prog, layout, w['input'], w['end'])
             tb = m2m.concrete_trace(machine, layout, w['input'], w['end'], start_actions=comp.pctx.start_actions)
-            f = {'kind': 'c01-diff', 'what': 'compiled machine is not an allowed variant of the procedural reading', 'detail': w['detail'], 'sym': 'input',
+            f = {'kind': job.get('kind', 'c01-diff'), 'what': 'compiled machine is not an allowed variant of the procedural reading' + (' at end of input' if w['end'] else ''), 'detail': w['detail'], 'sym': 'input',
                  'pre': {'state': 0, 'vals': {}, 'strs': {}}, 'bytes': w['input'], 'end': w['end'], 'label': job['label'], 'cname': f"K{job['K']}", 'flags': list(comp.flags), 'source': src,
                  'replay': {'reproduced': True, 'reference': str(ta)[:500], 'machine': str(tb)[:500]}}
             try:
@@ -235,7 +239,7 @@ def main(tier, replay_path):
     run.cov['reference_validation'] = {'annotated_cases_reproduced': good, 'mismatches': bad}
     if bad or good < 30:
         run.harness_error(f'reference interpreter does not reproduce the repo annotations: {bad[:3]} (ok {good})')
-    run.bounds = {'input_bytes_K': K, 'end_of_input': 'also with a trailing end() for programs compiled with EOF support', 'path_budget': 4000 if tier == 'quick' else 20000,
+    run.bounds = {'input_bytes_K': K, 'end_of_input': 'runs that end with end() are decided by C17 (same engine)', 'path_budget': 4000 if tier == 'quick' else 20000,
                   'programs': 'corpus (examples, *.ok tests, verif corpus; macros expanded textually first) + seeded generator'}
     run.assumptions = ['slack exactly as DESIGN §4 C01: pending events at end of input / when an error strikes may be missing on the machine side (prefix); a trailing byte nothing accepts may be FAIL on the machine side',
                        '$last compared only through the values it produces', 'foreach do-actions run before the per-byte append (generator keeps the order unobservable)', 'arithmetic UB and reads beyond the string length excluded']
